@@ -531,7 +531,12 @@ class OggFileType(FileType):
 
         try:
             self.info = self._Info(fileobj)
-            self.tags = self._Tags(fileobj, self.info)
+            try:
+                self.tags = self._Tags(fileobj, self.info)
+            except (ValueError, IndexError) as e:
+                # OggPage.to_packets() refuses pages that don't form a
+                # stream, or there is no comment packet at all
+                raise self._Error("invalid comment packet: %s" % e)
             self.info._post_tags(fileobj)
         except (error, IOError) as e:
             reraise(self._Error, e, sys.exc_info()[2])
